@@ -256,7 +256,10 @@ func worker(o *common.Opts) {
 				// command and the follow-ups run through the paths that replace, keep or drop an existing deadline
 				ttl := "10000000000"
 				if mine%7 == 5 {
-					ttl = "100000"
+					// a few seconds, not hours: the runtime keeps a timer until it fires even when the goroutine waiting
+					// for it was cancelled, and a sweep of 10^8 inputs would hold 10^8 of them (the thorough tier's
+					// workers were killed for their memory twice before this was understood)
+					ttl = "5"
 				}
 				for _, k := range presetKeys[1:] {
 					in.Exec(respc.Cmd("EXPIRE", k, ttl), nil)
